@@ -139,7 +139,7 @@ hwloc_shmem_topology_write(hwloc_topology_t topology,
 
   /* now refresh the new distances/memattrs so that adopters can use them without refreshing the R/O shmem mapping */
   hwloc_internal_distances_refresh(new);
-  hwloc_internal_memattrs_refresh(topology);
+  hwloc_internal_memattrs_refresh(new);
 
   /* topology is saved, release resources now */
   munmap(mmap_address, length);
